@@ -36,7 +36,7 @@ COMPONENTS = {"real": ["pel.peltool.peltool.main() / parsePEL in-process, all mo
                        "the 'fresh process': purge + re-import of the module set inside the same interpreter"]}
 ASSUMPTIONS = ["a pristine module set (purge + import) is a faithful stand-in for a fresh interpreter; validated against real subprocesses on plans without fake plugins",
                "stderr is compared only for absence of tracebacks (the one-shot 'Failed to find PEL creators components config file' line is legitimately history dependent and not part of the document)"]
-PROBES = ["op:f", "op:a", "op:l", "op:bmc", "op:pp", "damaged_before_good", "fault_before_same_module", "skip_then_enable",
+PROBES = ["op:f", "op:a", "op:l", "op:bmc", "op:pp", "op:j", "damaged_before_good", "fault_before_same_module", "skip_then_enable",
           "registry", "subprocess_crosschecks", "repeat_same_pel"]
 
 
@@ -52,14 +52,14 @@ def gen_plan(rng, tier, run):
                                         fields=pelgen.field_offsets(p["recipe"]))
     ops = []
     for _ in range(rng.randint(3, 20)):
-        k = rng.choice(["f", "f", "f", "f", "a", "l", "bmc", "pp", "pp"])
+        k = rng.choice(["f", "f", "f", "f", "a", "l", "bmc", "pp", "pp", "j"])
         op = {"op": k, "flags": []}
         if rng.random() < 0.2:
             op["flags"].append("-P")
         if k in ("f", "bmc", "pp"):
             op["pel"] = rng.randrange(len(pels))
-        if k in ("a", "l"):
-            if rng.random() < 0.5:
+        if k in ("a", "l", "j"):
+            if rng.random() < 0.5 and k != "j":
                 op["flags"].append("-r")
             op["order"] = {"policy": rng.choice(["perm", "asc", "desc"]), "key": rng.randrange(1 << 30)}
         if k in ("f", "a", "bmc") and rng.random() < 0.1:
@@ -81,6 +81,8 @@ def argv_of(plan, op):
         return ["-p", "@/D", "-l"] + op["sel"] + op["flags"]
     if k == "bmc":
         return ["-p", "@/D", "--bmc-id", str(plan["pels"][op["pel"]]["recipe"]["bmc_id"])] + op["flags"]
+    if k == "j":
+        return ["-p", "@/D", "-j", "-o", "@/OUT"] + op["sel"] + [f for f in op["flags"] if f != "-x"]
     return None
 
 
@@ -91,6 +93,16 @@ def V(cls, detail):
 def do_op(w, plan, op, datas):
     """returns a comparable outcome dict"""
     k = op["op"]
+    if k == "j":
+        import shutil
+        shutil.rmtree(w.path("OUT"), ignore_errors=True)
+        w.mkdir("OUT")
+        r = w.run(argv_of(plan, op), order=op.get("order"))
+        snap = w.snapshot()
+        files = {p: w.read(p).decode("utf-8", "replace") for p in sorted(snap) if p.startswith("OUT/") and snap[p][0] == "f"}
+        shutil.rmtree(w.path("OUT"), ignore_errors=True)
+        return {"stdout": json.dumps(files, sort_keys=True), "exit": r.exit, "exc": r.exc,
+                "traceback": "Traceback (most recent call last)" in r.stderr, "stderr": r.stderr, "nevents": len(r.events)}
     if k != "pp":
         r = w.run(argv_of(plan, op), order=op.get("order"))
         return {"stdout": r.stdout, "exit": r.exit, "exc": r.exc, "traceback": "Traceback (most recent call last)" in r.stderr,
